@@ -635,6 +635,63 @@ pub open spec fn replay_all(v: LogView, es: Seq<EntryView>) -> Option<LogView>
     }
 }
 
+/// when no entry is being assembled, the bytes left in the reassembly buffer do not matter
+pub proof fn lemma_rec_step_buf_irrelevant(blocks: Seq<Seq<u8>>, p: RdPos, b1: Seq<u8>, b2: Seq<u8>)
+    requires pos_ok(blocks, p), blocks_ok(blocks),
+    ensures
+        match (rec_step(blocks, p, false, b1), rec_step(blocks, p, false, b2)) {
+            (RStep::Record { bytes: x1, next: n1 }, RStep::Record { bytes: x2, next: n2 }) => x1 == x2 && n1 == n2,
+            (RStep::Corrupt { next: n1 }, RStep::Corrupt { next: n2 }) => n1 == n2,
+            (RStep::End { next: n1, within: w1, buf: e1 }, RStep::End { next: n2, within: w2, buf: e2 }) => n1 == n2 && w1 == w2 && (w1 ==> e1 == e2),
+            _ => false,
+        },
+    decreases blocks.len() - p.idx, (if p.corrupted { 0int } else { 1int }), BLOCK() - p.cursor,
+{
+    lemma_frame_step_progress(blocks, p);
+    match frame_step(blocks, p) {
+        FStep::Frame { ty, payload, next } => {
+            if !type_is_first(ty) {
+                lemma_rec_step_buf_irrelevant(blocks, next, b1, b2);
+            }
+        }
+        _ => {}
+    }
+}
+
+/// WHAT OPEN COMPUTES (C01 / C08 / C09 end to end, over the block stream recovery reads): starting from reader state (p, within, buf) and
+/// logical state v, take entries as the reading rule `rec_step` delivers them; a damaged frame (Corrupt) and an entry that does not decode
+/// are skipped; every other entry is applied with the replay rule; `None` = open reports Corruption (an entry the replay rule rejects).
+pub open spec fn replay_log(blocks: Seq<Seq<u8>>, p: RdPos, within: bool, buf: Seq<u8>, v: LogView) -> Option<LogView>
+    decreases blocks.len() - p.idx, (if p.corrupted { 0int } else { 1int }), BLOCK() - p.cursor,
+    when pos_ok(blocks, p) && blocks_ok(blocks)
+    via replay_log_decreases
+{
+    match rec_step(blocks, p, within, buf) {
+        RStep::End { .. } => Some(v),
+        RStep::Corrupt { next } => replay_log(blocks, next, false, Seq::empty(), v),
+        RStep::Record { bytes, next } => match parse_entry(bytes) {
+            None => replay_log(blocks, next, false, bytes, v),
+            Some(e) => match replay_entry(v, e) {
+                None => None,
+                Some(v1) => replay_log(blocks, next, false, bytes, v1),
+            },
+        },
+    }
+}
+
+#[via_fn]
+proof fn replay_log_decreases(blocks: Seq<Seq<u8>>, p: RdPos, within: bool, buf: Seq<u8>, v: LogView) {
+    lemma_rec_step_progress(blocks, p, within, buf);
+}
+
+/// the reassembly buffer does not matter to replay_log either, when no entry is being assembled
+pub proof fn lemma_replay_log_buf_irrelevant(blocks: Seq<Seq<u8>>, p: RdPos, b1: Seq<u8>, b2: Seq<u8>, v: LogView)
+    requires pos_ok(blocks, p), blocks_ok(blocks),
+    ensures replay_log(blocks, p, false, b1, v) == replay_log(blocks, p, false, b2, v),
+{
+    lemma_rec_step_buf_irrelevant(blocks, p, b1, b2);
+}
+
 /// L-C01 (history level): if every call of a history wrote an entry whose replay on the pre-state gives the
 /// post-state (the per-call obligations O-C01-commute-*, O-C12-one), then replaying the entries of the whole
 /// history from its initial state gives its final state.  States: vs[0] .. vs[n]; entries es[0] .. es[n-1].
